@@ -42,28 +42,29 @@ PURE_WXYZ = Cfg('pure_wxyz', defines=('GLM_FORCE_PURE', 'GLM_FORCE_QUAT_DATA_WXY
 # kinds: V vec4, W vec3, S scalar, M mat4, N mat3, Q quat, B bool, I int scalar
 OPS = [
     ('add', 'A', '*a + *b', 'VV', 'V', 'fiud'), ('sub', 'A', '*a - *b', 'VV', 'V', 'fiud'), ('mul', 'A', '*a * *b', 'VV', 'V', 'fiud'),
-    ('div', 'A', '*a / *b', 'VV', 'V', 'fd'), ('add_s', 'A', '*a + *b', 'VS', 'V', 'fi'), ('mul_s', 'A', '*a * *b', 'VS', 'V', 'fi'),
-    ('div_s', 'A', '*a / *b', 'VS', 'V', 'f'), ('neg', 'A', '-*a', 'V', 'V', 'fi'),
+    ('div', 'A', '*a / *b', 'VV', 'V', 'fd'), ('add_s', 'A', '*a + *b', 'VS', 'V', 'fid'), ('mul_s', 'A', '*a * *b', 'VS', 'V', 'fid'),
+    ('div_s', 'A', '*a / *b', 'VS', 'V', 'f'), ('neg', 'A', '-*a', 'V', 'V', 'fid'),
     ('and', 'A', '*a & *b', 'VV', 'V', 'iu'), ('or', 'A', '*a | *b', 'VV', 'V', 'iu'), ('xor', 'A', '*a ^ *b', 'VV', 'V', 'iu'), ('not', 'A', '~*a', 'V', 'V', 'iu'),
     ('shl', 'A', '*a << *b', 'VV', 'V', 'iu'), ('shr', 'A', '*a >> *b', 'VV', 'V', 'iu'),
     ('eq', 'A', '(*a == *b)', 'VV', 'B', 'fiu'), ('ne', 'A', '(*a != *b)', 'VV', 'B', 'fiu'),
-    ('abs', 'A', 'abs(*a)', 'V', 'V', 'fi'), ('sign', 'A', 'sign(*a)', 'V', 'V', 'f'), ('floor', 'A', 'floor(*a)', 'V', 'V', 'f'), ('ceil', 'A', 'ceil(*a)', 'V', 'V', 'f'),
+    ('abs', 'A', 'abs(*a)', 'V', 'V', 'fid'), ('sign', 'A', 'sign(*a)', 'V', 'V', 'f'), ('floor', 'A', 'floor(*a)', 'V', 'V', 'f'), ('ceil', 'A', 'ceil(*a)', 'V', 'V', 'f'),
     ('round', 'A', 'round(*a)', 'V', 'V', 'f'), ('roundEven', 'A', 'roundEven(*a)', 'V', 'V', 'f'), ('trunc', 'A', 'trunc(*a)', 'V', 'V', 'f'),
     ('fract', 'A', 'fract(*a)', 'V', 'V', 'f'), ('mod', 'B', 'mod(*a, *b)', 'VV', 'V', 'f'),
-    ('min', 'A', 'min(*a, *b)', 'VV', 'V', 'fiu'), ('max', 'A', 'max(*a, *b)', 'VV', 'V', 'fiu'), ('clamp', 'A', 'clamp(*a, *b, *c)', 'VVV', 'V', 'fiu'),
+    ('min', 'A', 'min(*a, *b)', 'VV', 'V', 'fiud'), ('max', 'A', 'max(*a, *b)', 'VV', 'V', 'fiud'), ('clamp', 'A', 'clamp(*a, *b, *c)', 'VVV', 'V', 'fiu'),
     ('clamp_s', 'A', 'clamp(*a, *b, *c)', 'VSS', 'V', 'fiu'), ('min_s', 'A', 'min(*a, *b)', 'VS', 'V', 'fiu'), ('max_s', 'A', 'max(*a, *b)', 'VS', 'V', 'fiu'),
     ('step', 'A', 'step(*a, *b)', 'VV', 'V', 'f'), ('sqrt', 'A', 'sqrt(*a)', 'V', 'V', 'f'), ('inversesqrt', 'B', 'inversesqrt(*a)', 'V', 'V', 'f'),
-    ('mix', 'B', 'mix(*a, *b, *c)', 'VVV', 'V', 'f'), ('smoothstep', 'B', 'smoothstep(*a, *b, *c)', 'VVV', 'V', 'f'), ('fma', 'B', 'fma(*a, *b, *c)', 'VVV', 'V', 'f'),
-    ('dot', 'B', 'dot(*a, *b)', 'VV', 'S', 'f'), ('length', 'B', 'length(*a)', 'V', 'S', 'f'), ('distance', 'B', 'distance(*a, *b)', 'VV', 'S', 'f'),
+    ('mix', 'B', 'mix(*a, *b, *c)', 'VVV', 'V', 'fd'), ('smoothstep', 'B', 'smoothstep(*a, *b, *c)', 'VVV', 'V', 'f'), ('fma', 'B', 'fma(*a, *b, *c)', 'VVV', 'V', 'fd'),
+    ('dot', 'B', 'dot(*a, *b)', 'VV', 'S', 'fd'), ('length', 'B', 'length(*a)', 'V', 'S', 'fd'), ('distance', 'B', 'distance(*a, *b)', 'VV', 'S', 'fd'),
     ('normalize', 'B', 'normalize(*a)', 'V', 'V', 'f'), ('faceforward', 'B', 'faceforward(*a, *b, *c)', 'VVV', 'V', 'f'),
     ('reflect', 'B', 'reflect(*a, *b)', 'VV', 'V', 'f'), ('refract', 'B', 'refract(*a, *b, *c)', 'VVS', 'V', 'f'),
     ('dot3', 'B', 'dot(*a, *b)', 'WW', 'S', 'f'), ('cross', 'B', 'cross(*a, *b)', 'WW', 'W', 'f'), ('normalize3', 'B', 'normalize(*a)', 'W', 'W', 'f'),
     ('length3', 'B', 'length(*a)', 'W', 'S', 'f'), ('add3', 'A', '*a + *b', 'WW', 'W', 'fi'), ('mul3', 'A', '*a * *b', 'WW', 'W', 'f'),
-    ('m4_mul_v4', 'B', '*a * *b', 'MV', 'V', 'f'), ('v4_mul_m4', 'B', '*a * *b', 'VM', 'V', 'f'), ('m4_mul_m4', 'B', '*a * *b', 'MM', 'M', 'f'),
-    ('m4_add', 'A', '*a + *b', 'MM', 'M', 'f'), ('m4_sub', 'A', '*a - *b', 'MM', 'M', 'f'), ('m4_compmult', 'A', 'matrixCompMult(*a, *b)', 'MM', 'M', 'f'),
-    ('m4_transpose', 'A', 'transpose(*a)', 'M', 'M', 'f'), ('m4_det', 'B', 'determinant(*a)', 'M', 'S', 'f'), ('m4_inverse', 'B', 'inverse(*a)', 'M', 'M', 'f'),
-    ('m4_outer', 'A', 'outerProduct(*a, *b)', 'VV', 'M', 'f'), ('m4_mul_s', 'A', '*a * *b', 'MS', 'M', 'f'),
-    ('m3_transpose', 'A', 'transpose(*a)', 'N', 'N', 'f'), ('m3_mul_v3', 'B', '*a * *b', 'NW', 'W', 'f'), ('m3_mul_m3', 'B', '*a * *b', 'NN', 'N', 'f'),
+    ('m4_mul_v4', 'B', '*a * *b', 'MV', 'V', 'fd'), ('v4_mul_m4', 'B', '*a * *b', 'VM', 'V', 'fd'), ('m4_mul_m4', 'B', '*a * *b', 'MM', 'M', 'fd'),
+    ('m4_add', 'A', '*a + *b', 'MM', 'M', 'fd'), ('m4_sub', 'A', '*a - *b', 'MM', 'M', 'fd'), ('m4_compmult', 'A', 'matrixCompMult(*a, *b)', 'MM', 'M', 'fd'),
+    ('m4_transpose', 'A', 'transpose(*a)', 'M', 'M', 'fd'), ('m4_det', 'B', 'determinant(*a)', 'M', 'S', 'fd'), ('m4_inverse', 'B', 'inverse(*a)', 'M', 'M', 'fd'),
+    ('m4_outer', 'A', 'outerProduct(*a, *b)', 'VV', 'M', 'fd'), ('m4_mul_s', 'A', '*a * *b', 'MS', 'M', 'fd'),
+    ('splatX', 'A', 'splatX(*a)', 'V', 'V', 'fd'), ('splatY', 'A', 'splatY(*a)', 'V', 'V', 'fd'), ('splatZ', 'A', 'splatZ(*a)', 'V', 'V', 'fd'), ('splatW', 'A', 'splatW(*a)', 'V', 'V', 'fd'),
+    ('m3_transpose', 'A', 'transpose(*a)', 'N', 'N', 'fd'), ('m3_mul_v3', 'B', '*a * *b', 'NW', 'W', 'fd'), ('m3_mul_m3', 'B', '*a * *b', 'NN', 'N', 'fd'),
     ('m3_inverse', 'B', 'inverse(*a)', 'N', 'N', 'f'), ('m3_det', 'B', 'determinant(*a)', 'N', 'S', 'f'),
     ('q_mul', 'B', '*a * *b', 'QQ', 'Q', 'f'), ('q_mul_v3', 'B', '*a * *b', 'QW', 'W', 'f'), ('q_mul_v4', 'B', '*a * *b', 'QV', 'V', 'f'),
     ('q_add', 'A', '*a + *b', 'QQ', 'Q', 'f'), ('q_sub', 'A', '*a - *b', 'QQ', 'Q', 'f'), ('q_mul_s', 'A', '*a * *b', 'QS', 'Q', 'f'), ('q_div_s', 'A', '*a / *b', 'QS', 'Q', 'f'),
@@ -389,14 +390,14 @@ def class_a_witness(t_p, t_s, w):
 
 def cases(tier):
     cs = []
-    isas = ['sse2', 'avx2'] if tier == 'quick' else list(ISAS)
+    isas = ['sse2', 'avx2', 'avx'] if tier == 'quick' else list(ISAS)         # quick: avx only for double (the 256-bit double code has AVX arms of its own)
     precs = ['highp', 'mediump', 'lowp']          # the SIMD files carry separate (copy-pasted) specialisations per qualifier: all three in every tier
     for isa in isas:
         for op in OPS:
             types = op[5]
             tl = [TNAME[types[0]]] if '>' in types else [TNAME[c] for c in types]
             for T in tl:
-                if T == 'double' and tier == 'quick' and isa != 'avx2':
+                if tier == 'quick' and ((T == 'double') != (isa == 'avx')) and not (T == 'double' and isa == 'avx2'):
                     continue
                 for prec in precs:
                     if prec != 'highp' and T not in ('float',):
@@ -404,6 +405,8 @@ def cases(tier):
                     cs.append(pair_case(op, T, prec, isa))
         # quaternion storage order
         for op in OPS:
+            if tier == 'quick' and isa == 'avx':
+                break
             if 'Q' in op[3] or op[4] == 'Q':
                 cs.append(pair_case(op, 'float', 'highp', isa, wxyz=True))
     cs += canaries()
